@@ -250,7 +250,11 @@ def calibration_table() -> Dict[str, List[int]]:
 def chunks_running(tier: str, seed: int, n: int) -> List[Dict[str, Any]]:
     from vlib.bc import progs
 
+    import os
+
     allp = list(progs.corpus_running(tier, seed))
+    stride = int(os.environ.get("VERIF_CORPUS_STRIDE", "1") or 1)
+    allp = allp[seed % stride::stride]
     out = [{"name": f"chunk{k}", "programs": allp[k::n]} for k in range(n)]
     return [c for c in out if c["programs"]]
 
